@@ -208,7 +208,14 @@ def run_with_timeout(fn, seconds):
     t = threading.Thread(target=work, daemon=True)
     t.start()
     t.join(seconds)
+    if t.is_alive():
+        # the abandoned thread may sit on a lock of the code under test for ever: nothing more of this module can be
+        # run in this process (the stream that called reports the failure)
+        STUCK.append(True)
     return box.get("r") if not t.is_alive() else None
+
+
+STUCK = []
 
 
 def model_line(msgs, secs, pre_names, dir_missing):
@@ -269,6 +276,8 @@ def gen_case(r):
 
 
 def run(ctx):
+    if STUCK:
+        return []
     r = ctx.rng("C16")
     streams = []
     s = Stream("sequential-scripted-clock")
@@ -647,4 +656,6 @@ def write_fault_stream(ctx, r):
 
 
 def search(ctx, disagreements):
+    if STUCK:
+        return []
     return []
